@@ -922,7 +922,7 @@ def find_literal_merge(fn, skip=frozenset()):
     for X in sorted(cands):
         # its discriminant (or that of a plain copy) is read somewhere
         alias = {X}
-        for _ in range(2):
+        for _ in range(6):
             for b in reach:
                 for st in fn.blocks[b]['stmts']:
                     if st['k'] == 'assign' and not st['place']['p'] and st['rv']['k'] == 'use':
